@@ -349,15 +349,17 @@ func asComplete(loc Location) Location {
 		v.Partial = Complete
 		return v
 	case Joined:
+		w := make(Joined, len(v))
 		for i, u := range v {
-			v[i] = asComplete(u)
+			w[i] = asComplete(u)
 		}
-		return v
+		return w
 	case Ordered:
+		w := make(Ordered, len(v))
 		for i, u := range v {
-			v[i] = asComplete(u)
+			w[i] = asComplete(u)
 		}
-		return v
+		return w
 	default:
 		return v
 	}
